@@ -124,8 +124,11 @@ where
             // todo: we should check if the "mustUnderstand" == 1 to make the field required
             if let Some(namespace) = header.in_namespace.as_ref() {
                 let mod_name = namespace.rust_mod_name.as_str();
+                // the struct of the element is emitted under its PascalCase name
+                let rust_type = to_pascal_case(rust_type);
                 writeln!(writer, "    pub {field_name}: Option<{mod_name}::{rust_type}>,",)?;
             } else {
+                let rust_type = to_pascal_case(rust_type);
                 writeln!(writer, "    pub {field_name}: Option<{rust_type}>",)?;
             }
         }
@@ -166,8 +169,10 @@ where
             writer,
             "    #[yaserde(prefix = \"{abbreviation}\", rename = \"{xml_name}\")]"
         )?;
+        let body = to_pascal_case(body);
         writeln!(writer, "    pub {body_field_name}: {mod_name}::{body},",)?;
     } else {
+        let body = to_pascal_case(body);
         writeln!(writer, "    #[yaserde(rename = \"{xml_name}\")]")?;
         writeln!(writer, "    pub {body_field_name}: {body},")?;
     }
